@@ -32,6 +32,11 @@ func VerifUpdateFlowControls(r Reconcile, c *proxyv1alpha1.RateLimitCondition) {
 	r.(*reconcile).updateFlowControls(c)
 }
 
+// VerifBuildLimitConditions builds the request of one allocate round (reconcile.reconcile()).
+func VerifBuildLimitConditions(r Reconcile) *proxyv1alpha1.RateLimitCondition {
+	return r.(*reconcile).buildLimitConditions()
+}
+
 // VerifInner names the limiter behind a remote wrapper and reads its flags.
 func VerifInner(w RemoteFlowControlWrapper) (kind string, unavailable bool, overLimited bool) {
 	rw, ok := w.(*remoteWrapper)
